@@ -7,6 +7,7 @@ import Tuc.Model.Args
 import Tuc.Model.Faults
 import Tuc.Model.Regex
 import Tuc.Model.Argv
+import Tuc.Model.Main
 import Tuc.Spec.Record
 import Tuc.Spec.Lines
 import Tuc.Spec.Grammar
@@ -281,30 +282,16 @@ def driverRegexOk (unknownOk : Bool) (t : List Char) : Bool :=
     || knownValidRegexes.contains (String.ofList t) then true
   else unknownOk
 
+/-- `Tuc.Model.Main.tucMain` (argv → `parseArgv` → regex bag → `dispatch`) with one 64 KiB segment,
+    rendered -/
 def runArgvWith (unknownOk : Bool) (argv : List (List Char)) (input : Bytes) : String :=
-  match parseArgv (driverRegexOk unknownOk) argv with
+  match tucMain (driverRegexOk unknownOk) argv (splitSegs input [65536]) with
   | .help => "help"
   | .version => "version"
   | .reject => "reject"
   | .panic => "panic"
-  | .run opt fm reText =>
-    let bag : Except String (Option RegexBag) :=
-      if opt.boundsType = .characters then .ok (some charsBag)
-      else match reText with
-        | none => .ok none
-        | some t =>
-          match Re.parse t with
-          | some r => if (Re.run 1 r [] some).isSome then .error "unmodelled" else .ok (some r.bag)
-          | none => .error "unmodelled"
-    match bag with
-    | .error e => e
-    | .ok bag =>
-      let opt := { opt with regexBag := bag }
-      if opt.boundsType = .characters && !validUtf8 input then "unmodelled"
-      else
-        match dispatch opt fm (splitSegs input [65536]) with
-        | some r => renderRun r
-        | none => "reject"
+  | .unmodelled => "unmodelled"
+  | .run r => renderRun r
 
 /-- `argv a=<hex>,<hex>,… in=<hex>`: `parseArgv`, then `main`'s dispatch with one 64 KiB segment.
     When the outcome depends on the validity of a regex text the driver knows nothing about, the
